@@ -1,12 +1,142 @@
 import Driver.Util
-/- Line-protocol handler for the `start` model (stub until the model exists). -/
+import Munge.Model.Start
+/-
+Line-protocol handler for the `Start` model (C15).
+
+  start prog                 the compiled program:  startup=<op,op,…> shutdown=<op,…> reval=<0|1>
+  start sys                  the generated call order on the main path of `main` (helpers inlined): <sys,sys,…>
+  start run <ev,ev,…>        run a schedule from the initial state and print the observation of the final state
+      events:  s<p> start   x<p> one call of p   x<p>*<n> n calls   X<p> run p until it serves or is gone
+               t<p> SIGTERM   k<p> SIGKILL
+  start runx <variant> <ev,…>  same on a variant of the program:  cur | strip (no re-validation) | add (re-validation added)
+  observation:  sock=<0|1> lock=<0|1> pid=<0|1> seed=<0|1> server=<p|-> owners=<p+p|-> ph=<p>:<phase>:<pc>;…
+-/
 namespace Driver.Start
+open Munge.Start Munge.Gen.Start
 
 structure St where
   dummy : Unit := ()
 
 def init : St := {}
 
-def step (st : St) (_args : List String) : St × String := (st, "bad-op")
+def nameStr : Name → String
+  | .sock => "sock" | .lock => "lock" | .pid => "pid" | .seed => "seed" | .other => "other"
+
+def fdStr : Fd → String
+  | .listen => "listen" | .lock => "lock" | .tmp => "tmp"
+
+def opStr : Op → String
+  | .unlink n => s!"unlink:{nameStr n}"
+  | .openLock c e m => s!"openLock:{if c then 1 else 0}{if e then 1 else 0}:{m}"
+  | .fstatLock => "fstatLock"
+  | .setlk => "setlk"
+  | .revalidate => "revalidate"
+  | .socket => "socket"
+  | .bind => "bind"
+  | .listen => "listen"
+  | .create n m => s!"create:{nameStr n}:{m}"
+  | .closeListen => "closeListen"
+  | .closeLock => "closeLock"
+
+def sysStr : Sys → String
+  | .unlink n => s!"unlink:{nameStr n}"
+  | .openF n c e _ m => s!"open:{nameStr n}:{if c then 1 else 0}{if e then 1 else 0}:{m}"
+  | .fopenW n => s!"fopenw:{nameStr n}"
+  | .close fd => s!"close:{fdStr fd}"
+  | .fstat fd => s!"fstat:{fdStr fd}"
+  | .stat n => s!"stat:{nameStr n}"
+  | .setlk x w => s!"setlk:{if x then 1 else 0}{if w then 1 else 0}"
+  | .setlkw x w => s!"setlkw:{if x then 1 else 0}{if w then 1 else 0}"
+  | .getlk => "getlk"
+  | .socket => "socket"
+  | .bind n => s!"bind:{nameStr n}"
+  | .listen => "listen"
+  | .umask (some v) => s!"umask:{v}"
+  | .umask none => "umask:-"
+  | .write fd => s!"write:{fdStr fd}"
+  | .check f => s!"check:{f}"
+  | .call f => s!"call:{f}"
+  | .serve => "serve"
+  | .die => "die"
+  | .dieUnlessForce => "dieUnlessForce"
+  | .exit => "exit"
+
+def phaseStr : Phase → String
+  | .idle => "idle" | .starting => "starting" | .serving => "serving" | .stopping => "stopping"
+  | .exited true => "exit0" | .exited false => "exit1" | .crashed => "killed"
+
+def parseEv (tok : String) : Option (List (Option Event × Pid)) :=
+  -- returns events; `none` event = "run p to completion"
+  match tok.toList with
+  | c :: rest =>
+    let body := String.ofList rest
+    match body.splitOn "*" with
+    | [p] => match p.toNat? with
+      | some p => match c with
+        | 's' => some [(some (.start p), p)]
+        | 'x' => some [(some (.exec p), p)]
+        | 't' => some [(some (.term p), p)]
+        | 'k' => some [(some (.crash p), p)]
+        | 'X' => some [(none, p)]
+        | _ => none
+      | none => none
+    | [p, n] => match p.toNat?, n.toNat? with
+      | some p, some n => if c == 'x' then some (List.replicate n (some (.exec p), p)) else none
+      | _, _ => none
+    | _ => none
+  | [] => none
+
+def busy (s : State) (p : Pid) : Bool :=
+  ((s.procs p).phase == .starting || (s.procs p).phase == .stopping) && !(s.procs p).todo.isEmpty
+
+def runToEnd (P : Prog) : Nat → State → Pid → State
+  | 0, s, _ => s
+  | n + 1, s, p => if busy s p then runToEnd P n (step P s (.exec p)) p else s
+
+def pcOf (P : Prog) (pr : Proc) : Nat :=
+  match pr.phase with
+  | .starting => P.startup.length - pr.todo.length
+  | .stopping => P.shutdown.length - pr.todo.length
+  | _ => 0
+
+def insertPid (l : List Pid) (p : Pid) : List Pid := if l.contains p then l else l ++ [p]
+
+def observe (P : Prog) (s : State) (pids : List Pid) : String :=
+  let b (n : Name) : String := if (s.names n).isSome then "1" else "0"
+  let owners := pids.filter fun p => (s.procs p).own
+  let ownersS := if owners.isEmpty then "-" else "+".intercalate (owners.map toString)
+  let server := match serverOf s with | some p => toString p | none => "-"
+  let ph := ";".intercalate (pids.map fun p => s!"{p}:{phaseStr (s.procs p).phase}:{pcOf P (s.procs p)}")
+  s!"sock={b .sock} lock={b .lock} pid={b .pid} seed={b .seed} server={server} owners={ownersS} ph={ph}"
+
+def runSchedule (P : Prog) (sched : String) : String :=
+  match (sched.splitOn ",").mapM parseEv with
+  | none => "bad-op"
+  | some evs =>
+    let evs := evs.flatten
+    let (s, pids) := evs.foldl (fun (acc : State × List Pid) (e : Option Event × Pid) =>
+      let (s, pids) := acc
+      let pids := insertPid pids e.2
+      match e.1 with
+      | some ev => (step P s ev, pids)
+      | none => (runToEnd P 200 s e.2, pids)) (Munge.Start.init, [])
+    observe P s pids
+
+def variant : String → Option Prog
+  | "cur" => some prog
+  | "strip" => some (stripReval prog)
+  | "add" => some (addReval prog)
+  | _ => none
+
+def step (st : St) (args : List String) : St × String :=
+  match args with
+  | ["prog"] =>
+    (st, s!"startup={",".intercalate (prog.startup.map opStr)} shutdown={",".intercalate (prog.shutdown.map opStr)} reval={if lockRevalidates then 1 else 0}")
+  | ["sys"] => (st, ",".intercalate (mainPath.map sysStr))
+  | ["run", sched] => (st, runSchedule prog sched)
+  | ["runx", v, sched] => match variant v with
+    | some P => (st, runSchedule P sched)
+    | none => (st, "bad-op")
+  | _ => (st, "bad-op")
 
 end Driver.Start
